@@ -277,6 +277,10 @@ func LiveMPD(a *asset, mpdName string, cfg *ResponseConfig, drmCfg *drm.DrmConfi
 			if err != nil {
 				return nil, fmt.Errorf("adjustASForTimelineNr: %w", err)
 			}
+			if as.SegmentTemplate.StartNumber != nil {
+				// se.startNr counts from availabilityStartTime. Segment requests are offset by the configured start number.
+				*as.SegmentTemplate.StartNumber += uint32(cfg.getStartNr())
+			}
 			if asIdx == 0 {
 				mpd.PublishTime = m.ConvertToDateTime(calcPublishTime(cfg, se.lsi))
 			}
